@@ -10,7 +10,13 @@ from harness import fm_common as fm
 RULE = ('real TransmissionModel/EmissionModel with 1-3 molecules (different native grids: the longest is native, the '
         'others are sub-sampled), native grids linear/log/constant-R with 24-160 points; requests: sub-range of native '
         'points, observation-like grids (centres off the native points) satisfying the width condition, '
-        'cutoff_grid True/False; opacity requests on own points and on other points. distinct non-trivial = distinct '
+        'cutoff_grid True/False; opacity requests on own points and on other points. binned equality is judged on every '
+        'observation bin satisfying the property\'s own condition = the hypotheses of the Lean theorems bin_clip_eq_property / '
+        'bin_clip_eq_uniform_property, evaluated on every generated observation (native spacing <= W/2, or constant spacing '
+        '<= 3/2 W; bin within [min-W/2, max+W/2]; mid-point spacing condition for the native and the kept grid), both for the '
+        'same native values re-binned on the clipped grid (tolerance: rounding) and for the restricted run (licensed band); the '
+        'reproducer of the repaired clip-margin defect (bin_clip_condition_sharp, spacing 0.35 W) is a corpus regression. '
+        'distinct non-trivial = distinct '
         '(model kind, grid kind, request kind, regime, nlayers, n native) with a request strictly inside the native range')
 ASSUMPTIONS = ['np.interp = NpInterp.npInterp (last j with xp[j] <= x, clamped ends)',
                'compute_bin_edges = Binning.computeBinEdges',
@@ -84,12 +90,15 @@ def obs_grid(rng, native, ok=True):
     i = int(rng.integers(2, n // 2))
     j = int(rng.integers(n // 2 + 1, n - 2))
     lo, hi = native[i], native[j]
-    # choose bin count so that the mid-point width W satisfies native spacing < W/2
-    W_min = 2.05 * spacing_max
+    # choose bin count so that the mid-point width W satisfies native spacing < W/2 (the property's condition, the domain
+    # of the theorem bin_clip_eq_property); most of the time only just
+    W_min = (2.02 if rng.random() < 0.65 else 3.05) * spacing_max
     nb_max = int((hi - lo) / W_min)
     if nb_max < 2:
         return None
     nb = int(rng.integers(2, min(nb_max, 12) + 1))
+    if rng.random() < 0.3:
+        nb = min(nb_max, 40)                  # the narrowest bins the chosen condition allows: edge bins nearly in reach
     kind = rng.choice(['lin', 'log'])
     c = np.linspace(lo, hi, nb) if kind == 'lin' else np.geomspace(lo, hi, nb)
     from taurex.util.util import compute_bin_edges
@@ -111,6 +120,142 @@ def obs_grid(rng, native, ok=True):
         w = w * rng.uniform(1.5, 3.0)
         cond = False
     return c, w, cond
+
+
+def midpoint_ok(g):
+    """Binning.MidpointSpacingOK (Proofs/C05Midpoint.lean) of a grid, evaluated in floats (rounding slack 1e-12)"""
+    d = np.diff(np.asarray(g, dtype=float))
+    if len(d) == 0:
+        return True
+    dl = np.concatenate([d[:1], d[:-1]])      # spacingL: the first interval is its own left neighbour
+    dr = np.concatenate([d[1:], d[-1:]])      # spacingR: the last interval is its own right neighbour
+    s = 1e-12 * float(np.max(np.abs(d)))
+    return bool(np.all(dr <= 4 * d + dl + s) and np.all(dl <= 4 * d + dr + s))
+
+
+def theorem_domain(nat, rn, req, widths):
+    """The hypotheses of the Lean theorems Props/C13.lean:bin_clip_eq_property (the property's own condition: any strictly
+    increasing native grid with ordered mid-point bins, every native spacing <= W/2, W = the widest mid-point bin of the
+    observation grid, clip margin 5/4 W, observation bin reaching at most W/2 beyond the outermost centres) and
+    bin_clip_eq_uniform_property (constant native spacing d <= 3/2 W), evaluated on one observation.  Returns (mask over
+    the observation bins in increasing-wavenumber order - the order of FluxBinner's output -, info).  Comparisons that are
+    equalities in exact arithmetic for the generated grids (a = min - W/2 when the outermost bin is the widest) get a
+    rounding slack of 1e-12 of the scale: the theorem's conclusion is continuous in a, b (an overlap of 1e-12 W changes a
+    weight by 1e-12)."""
+    from taurex.util.util import compute_bin_edges
+    nat = np.asarray(nat, dtype=float)
+    rn = np.asarray(rn, dtype=float)
+    order = np.argsort(req, kind='stable')
+    c = np.asarray(req, dtype=float)[order]
+    w = np.asarray(widths, dtype=float)[order]
+    W = float(np.max(compute_bin_edges(np.asarray(req, dtype=float))[1]))      # widestBin
+    omin, omax = float(np.min(req)), float(np.max(req))
+    L, U = omin - 1.25 * W, omax + 1.25 * W                                    # the clip interval of clip_native_to_wngrid
+    d = np.diff(nat)
+    eps = 1e-12 * max(abs(L), abs(U), W)
+    increasing = bool(np.all(d > 0))
+    uniform = bool(np.max(np.abs(d - d.mean())) <= 1e-9 * d.mean())
+    okF, okC = midpoint_ok(nat), midpoint_ok(rn)
+    # the restricted grid is whatever the implementation's clip returned (its agreement with the documented interval [L, U]
+    # is the correspondence check of check_clip); the binned predicate is judged on it
+    kept = len(rn) >= 2
+    documented = bool(np.array_equal(rn, nat[(nat >= L) & (nat <= U)]))
+    general = increasing and okF and okC and kept and float(d.max()) <= W / 2 * (1 + 1e-12)
+    unif = uniform and increasing and kept and float(d.max()) <= 1.5 * W * (1 + 1e-12)
+    a, b = c - w / 2, c + w / 2
+    inside = (a < b) & (a >= omin - W / 2 - eps) & (b <= omax + W / 2 + eps)
+
+    def overlap_sum(g):
+        wn = compute_bin_edges(g)[1]
+        lo, hi = g - wn / 2, g + wn / 2
+        return np.array([np.clip(np.minimum(bb, hi) - np.maximum(aa, lo), 0, None).sum() for aa, bb in zip(a, b)])
+    posF = overlap_sum(nat) > 0
+    posC = overlap_sum(rn) > 0 if len(rn) >= 2 else np.zeros(len(c), dtype=bool)
+    mask = inside & posF & (general | (unif & posC))
+    return mask, dict(W=W, L=L, U=U, spacing_max=float(d.max()), uniform=uniform, okF=okF, okC=okC, kept=bool(kept), clip_is_documented=documented,
+                      theorem='general' if general else ('uniform' if unif else 'none'))
+
+
+def judge_binned(ctx, gk, nat, full, rn, rv, req, widths, case, band, tiny):
+    """binned(restricted) = binned(full), judged on every observation bin in the domain of bin_clip_eq_property /
+    bin_clip_eq_uniform_property (their hypotheses evaluated here): (i) the same native values re-binned on the clipped grid -
+    the geometric statement itself, tolerance: rounding; (ii) the restricted run `rv` (None: skip) within the licensed band."""
+    from taurex.binning import FluxBinner
+    nat, full, rn = np.asarray(nat, float), np.asarray(full, float), np.asarray(rn, float)
+    idx = np.searchsorted(nat, rn)
+    b = FluxBinner(np.asarray(req), None if widths is None else np.asarray(widths))
+    if widths is None:
+        from taurex.util.util import compute_bin_edges
+        widths = compute_bin_edges(np.sort(np.asarray(req, float)))[1][np.argsort(np.argsort(req, kind='stable'))]
+    bf = b.bindown(nat, full)[1]
+    bx = b.bindown(rn, full[idx])[1]
+    dom, info = theorem_domain(nat, rn, req, widths)
+    ctx.disagreements_checked += 1
+    d3 = np.abs(bf - bx)
+    ctx.bucket('binned:theorem=%s:%s' % (info['theorem'], gk))
+    ctx.bucket('binned:bins-judged', int(dom.sum()))
+    if np.any(~dom):
+        why = 'kept-grid-spacing' if not info['okC'] else ('native-spacing' if not info['okF'] else 'other')
+        ctx.bucket('binned:bins-outside-theorem-domain:%s:%s' % (why, 'differ' if np.any(d3[~dom] > tiny) else 'equal'),
+                   int((~dom).sum()))
+    if np.any(d3[dom] > tiny):
+        ctx.violation('binned-restricted-differs:' + gk,
+                      'binning the same native values on the clipped grid differs from binning them on the full '
+                      'grid although the width condition (hypotheses of bin_clip_eq_property) holds',
+                      dict(case, widths=widths), dict(maxdiff=float(d3[dom].max()), tiny=tiny, domain=info,
+                                                      full=bf, restricted=bx))
+        return bf, bx, dom
+    if rv is not None:
+        br = b.bindown(rn, np.asarray(rv, float))[1]
+        ctx.disagreements_checked += 1
+        d2 = np.abs(bf - br)
+        if np.any(d2[dom] > band + tiny):
+            ctx.violation('binned-restricted-differs:' + gk,
+                          'binning the restricted run differs from binning the full run although the width condition holds',
+                          dict(case, widths=widths), dict(maxdiff=float(d2[dom].max()), band=band, domain=info))
+    return bf, bx, dom
+
+
+# the reproducer of the defect repaired by "fix: clip the native grid with a margin of 1.25 times the widest requested bin"
+# = the exact counter-example of Props/C13.lean:bin_clip_condition_sharp (native spacing 0.35 W: inside the property's
+# condition "finer than half the widest bin"; with the pre-fix margin W the two binnings were 1967/401 and 491/100).
+# Also stored as corpus/C13/01_clip_margin_witness.json, replayed first on every run.
+WITNESS = dict(request='witness:bin_clip_condition_sharp',
+               native=[2.9, 9.9, 16.9, 23.7, 30.7, 37.7, 44.7, 51.7, 58.7, 65.7],
+               spectrum=[1.0, 2.0, 3.0, 5.0, 4.0, 6.0, 2.0, 1.0, 3.0, 2.0], obs=[30.0, 50.0],
+               model_first_bin=1967.0 / 401.0, prefix_restricted_first_bin=491.0 / 100.0)
+
+
+def run_binned_case(ctx, case):
+    """one stored binning case (native grid + values + observation centres [+ widths]) on the real clip + FluxBinner:
+    judged like every generated observation; the model's value of the first bin, when stored, is compared too"""
+    from taurex.util.util import clip_native_to_wngrid
+    nat, s, obs = (np.asarray(case[k], float) for k in ('native', 'spectrum', 'obs'))
+    widths = None if case.get('widths') is None else np.asarray(case['widths'], float)
+    cl = clip_native_to_wngrid(nat, obs)
+    check_clip(ctx, nat, obs, None, case)
+    tiny = 1e-9 * float(np.max(np.abs(s))) + 1e-300
+    bf, bx, dom = judge_binned(ctx, 'stored', nat, s, cl, None, obs, widths, case, 0.0, tiny)
+    ctx.case(key=('stored', case.get('request')), sample=dict(request=case.get('request'), full=bf, restricted=bx,
+                                                             judged=int(dom.sum())),
+             bucket='stored:' + str(case.get('request')))
+    if case.get('model_first_bin') is not None:
+        # Lean: fluxBinVal on the full grid = fluxBinVal on the grid clipped with margin 5/4 W (bin_clip_condition_sharp)
+        ctx.check_close('FluxBinner on the full native grid vs Lean fluxBinVal (bin_clip_condition_sharp)', float(bf[0]),
+                        case['model_first_bin'], case, rel=1e-12)
+        ctx.check_close('FluxBinner on the clipped native grid vs Lean fluxBinVal (bin_clip_condition_sharp)', float(bx[0]),
+                        case['model_first_bin'], case, rel=1e-12)
+        if not dom[0]:
+            ctx.mismatch('the stored witness satisfies the hypotheses of bin_clip_eq_property', case, dict(domain=dom))
+    return bf, bx
+
+
+def run_witness(ctx):
+    """regression of the clip-margin defect: on the repaired code both binnings of the reproducer are equal"""
+    bf, bx = run_binned_case(ctx, WITNESS)
+    ctx.notes.append('clip-margin reproducer (bin_clip_condition_sharp, native spacing 0.35 W): binned(full) = %.12g, '
+                     'binned(restricted) = %.12g on this tree (pre-fix margin W: 491/100 against 1967/401)'
+                     % (float(bf[0]), float(bx[0])))
 
 
 def band_transmission(model):
@@ -206,16 +351,7 @@ def run_models(ctx):
                 ctx.violation('cutoff-false-differs', 'model(wngrid, cutoff_grid=False) differs from the native run', case)
             # ---- binned equality under the width condition
             if req_kind == 'obs' and cond:
-                from taurex.binning import FluxBinner
-                b = FluxBinner(np.asarray(req), np.asarray(widths))
-                bf = b.bindown(nat, np.asarray(full))[1]
-                br = b.bindown(rn, np.asarray(rv))[1]
-                ctx.disagreements_checked += 1
-                d2 = np.abs(bf - br)
-                if np.any(d2 > band + tiny):
-                    ctx.violation('binned-restricted-differs:' + gk,
-                                  'binning the restricted run differs from binning the full run although the width condition holds',
-                                  dict(case, widths=widths), dict(maxdiff=float(d2.max()), band=band))
+                judge_binned(ctx, gk, nat, full, rn, rv, req, widths, case, band, tiny)
         # ---- a sequence of restricted runs on the SAME model object: equal-length windows at different places
         # (every likelihood evaluation of a retrieval re-uses the model; anything cached per grid *length* shows here)
         m = int(ctx.rng.integers(4, max(5, len(nat) // 3)))
@@ -375,6 +511,7 @@ def run(ctx):
     fm.quiet()
     try:
         run_opacity(ctx)
+        run_witness(ctx)
         run_models(ctx)
     finally:
         fm.reset_caches()
@@ -382,4 +519,7 @@ def run(ctx):
 
 def replay(ctx, case):
     fm.quiet()
+    if 'native' in case and 'spectrum' in case and 'obs' in case:
+        run_binned_case(ctx, case)          # stored binning case (corpus/C13): clip + FluxBinner on the real code
+        return
     ctx.notes.append('replay of C13 cases re-runs the generator stream with the recorded seed/k: ' + str(case.get('k')))
